@@ -1,7 +1,10 @@
 package checks
 
 import (
+	"bytes"
 	"fmt"
+
+	"github.com/wkhere/bcl"
 	"strings"
 
 	"verif/mc/fw"
@@ -18,7 +21,43 @@ var c17Extra = []string{"9223372036854775807", "9223372036854775808", "184467440
 	"0x7FFFFFFFFFFFFFFF", "0x8000000000000000", "0XFFFFFFFFFFFFFFFF", "0777777777777777777777", "01000000000000000000000", "01777777777777777777777",
 	`"a\\"`, `"\\"`, `"c:\\d\\"`, `"\\\""`, "print_x", "nil_", "or_1", "def_x", "not_y", "true_", "1e308", "1e309", "# c\r", "# c\n", "#\r", "# c", "\t", "\r", "\v", "\f", "\u0085", "\u00a0", "\u1680", "\u2003", "\u2028", "\u202f", "\u3000", "\ufeff"}
 
-var subC17 = newRefSub("c17.accept")
+// c17.accept: the differential comparison of every check (compareRun), and in addition: the verdict does not
+// depend on the introspection options — a source the plain call rejects is rejected (non-nil error, nil results)
+// with every combination of statistics / disassembly / trace too.
+var subC17 = &fw.Sub{Name: "c17.accept", New: func() fw.Case { return &progCase{} }, Exec: func(cs fw.Case) *fw.Fail {
+	if f := refExec(cs); f != nil {
+		return f
+	}
+	c := cs.(*progCase)
+	if len(c.Src) > 400 {
+		return nil
+	}
+	return fw.Guard(func() *fw.Fail {
+		in := []byte(c.Src)
+		var o0, l0 bytes.Buffer
+		_, err0 := bcl.Parse(in, "input", bcl.OptOutput(&o0), bcl.OptLogger(&l0))
+		if err0 == nil {
+			return nil
+		}
+		for mask := 1; mask < 8; mask++ {
+			var out, log bytes.Buffer
+			opts := []bcl.Option{bcl.OptOutput(&out), bcl.OptLogger(&log), bcl.OptStats(mask&1 != 0), bcl.OptDisasm(mask&2 != 0), bcl.OptTrace(mask&4 != 0)}
+			_, err := bcl.Parse(in, "input", opts...)
+			if err == nil {
+				return fw.Failf("a rejected source is rejected (non-nil error) whatever the options", "Parse with stats=%v disasm=%v trace=%v returns a nil error", mask&1 != 0, mask&2 != 0, mask&4 != 0)
+			}
+			if log.String() != l0.String() {
+				return fw.Failf(fmt.Sprintf("same diagnostics with stats=%v disasm=%v trace=%v: %q", mask&1 != 0, mask&2 != 0, mask&4 != 0, l0.String()), "%q", log.String())
+			}
+			bl, bi, ierr := bcl.Interpret(in, opts...)
+			if ierr == nil || bl != nil || bi != nil {
+				return fw.Failf("Interpret of a rejected source returns an error and nil results whatever the options", "stats=%v disasm=%v trace=%v: err=%v blocks=%d binding nil=%v", mask&1 != 0, mask&2 != 0, mask&4 != 0, ierr, len(bl), bi == nil)
+			}
+		}
+		fw.TallyOutcome("rejected-with-every-option")
+		return nil
+	})
+}}
 
 // vocabulary: one spelling per token kind + the contextual identifiers of bind + an invalid literal
 var c17Toks = []string{"var", "def", "eval", "print", "bind", "x", "y", "first", "all", "struct", "slice",
